@@ -243,7 +243,7 @@ type PAlert struct {
 
 // PSilence describes a silence create/edit action.
 type PSilence struct {
-	Key       string `json:"key"`            // plan-level name; the run maps it to the id the API returned
+	Key       string `json:"key"`               // plan-level name; the run maps it to the id the API returned
 	EditOf    string `json:"edit_of,omitempty"` // key whose current id is sent as "id"
 	Matchers  []M    `json:"matchers"`
 	StartOff  Dur    `json:"start_off"` // from the action instant
@@ -263,17 +263,17 @@ type Action struct {
 	Inst int    `json:"inst,omitempty"`
 	Kind string `json:"kind"`
 
-	Alerts  []PAlert  `json:"alerts,omitempty"`
-	Sil     *PSilence `json:"sil,omitempty"`
-	SilKey  string    `json:"sil_key,omitempty"`
-	Cfg     int       `json:"cfg,omitempty"`
-	Query   string    `json:"query,omitempty"`
+	Alerts  []PAlert          `json:"alerts,omitempty"`
+	Sil     *PSilence         `json:"sil,omitempty"`
+	SilKey  string            `json:"sil_key,omitempty"`
+	Cfg     int               `json:"cfg,omitempty"`
+	Query   string            `json:"query,omitempty"`
 	Labels  map[string]string `json:"labels,omitempty"`
-	N       int       `json:"n,omitempty"`
-	Str     string    `json:"str,omitempty"`
-	D       Dur       `json:"d,omitempty"`
-	Blob    []byte    `json:"blob,omitempty"`
-	Entries []PEntry  `json:"entries,omitempty"`
+	N       int               `json:"n,omitempty"`
+	Str     string            `json:"str,omitempty"`
+	D       Dur               `json:"d,omitempty"`
+	Blob    []byte            `json:"blob,omitempty"`
+	Entries []PEntry          `json:"entries,omitempty"`
 }
 
 // RcvFault makes one integration of one receiver misbehave for requests that
@@ -309,14 +309,14 @@ type InstOpts struct {
 	Workers             int `json:"workers,omitempty"` // ingestion workers (via GOMAXPROCS at construction)
 
 	// Cluster.
-	Cluster          bool `json:"cluster,omitempty"`
-	PeerTimeout      Dur  `json:"peer_timeout,omitempty"`
-	GossipInterval   Dur  `json:"gossip_interval,omitempty"`
-	PushPullInterval Dur  `json:"push_pull_interval,omitempty"`
-	ProbeInterval    Dur  `json:"probe_interval,omitempty"`
-	ProbeTimeout     Dur  `json:"probe_timeout,omitempty"`
-	SettleTimeout    Dur  `json:"settle_timeout,omitempty"`
-	ReconnectInterval Dur `json:"reconnect_interval,omitempty"`
+	Cluster           bool `json:"cluster,omitempty"`
+	PeerTimeout       Dur  `json:"peer_timeout,omitempty"`
+	GossipInterval    Dur  `json:"gossip_interval,omitempty"`
+	PushPullInterval  Dur  `json:"push_pull_interval,omitempty"`
+	ProbeInterval     Dur  `json:"probe_interval,omitempty"`
+	ProbeTimeout      Dur  `json:"probe_timeout,omitempty"`
+	SettleTimeout     Dur  `json:"settle_timeout,omitempty"`
+	ReconnectInterval Dur  `json:"reconnect_interval,omitempty"`
 }
 
 type InstPlan struct {
@@ -360,10 +360,10 @@ type NetPlan struct {
 }
 
 type Partition struct {
-	From Dur   `json:"from"`
-	To   Dur   `json:"to"`
-	A    []int `json:"a"` // instance indexes on one side; everyone else on the other
-	OneWay bool `json:"one_way,omitempty"`
+	From   Dur   `json:"from"`
+	To     Dur   `json:"to"`
+	A      []int `json:"a"` // instance indexes on one side; everyone else on the other
+	OneWay bool  `json:"one_way,omitempty"`
 }
 
 // PEntry names a crafted record version (states family).
